@@ -369,6 +369,19 @@ end Adeu.Doc
 namespace Adeu.Doc
 open Adeu
 
+theorem nestedProxyAt_skip_frame (s : Sess) (clean : Bool) (start len : Nat) (new : Str) (comment : Option Str)
+    (r : Sess × Bool) (hr : nestedProxyAt s clean start len new comment = some r) (h : r.2 = false) :
+    r.1.frame = s.frame := by
+  unfold nestedProxyAt at hr
+  simp only at hr
+  split at hr
+  · split at hr
+    · injection hr with hr
+      subst hr
+      exact applyIndexed_skip_frame _ _ _ _ _ _ _ h
+    · cases hr
+  · cases hr
+
 theorem heuristicDirect_skip_frame (s : Sess) (m : HMatch) (e : HEdit) (h : (heuristicDirect s m e).2 = false) :
     (heuristicDirect s m e).1.frame = s.frame := by
   unfold heuristicDirect at h ⊢
@@ -387,19 +400,19 @@ theorem heuristicDirect_skip_frame (s : Sess) (m : HMatch) (e : HEdit) (h : (heu
       · rfl
       · rename_i h3
         simp only [h3] at h
-        exact applyIndexed_skip_frame _ _ _ _ _ _ _ h
+        split
+        · rename_i r hr
+          simp only [hr] at h
+          split at hr
+          · cases hr
+          · exact nestedProxyAt_skip_frame _ _ _ _ _ _ r hr h
+        · rename_i hr
+          simp only [hr] at h
+          exact applyIndexed_skip_frame _ _ _ _ _ _ _ h
 
 theorem nestedProxy_skip_frame (s : Sess) (m : HMatch) (e : HEdit) (r : Sess × Bool)
-    (hr : nestedProxy s m e = some r) (h : r.2 = false) : r.1.frame = s.frame := by
-  unfold nestedProxy at hr
-  simp only at hr
-  split at hr
-  · split at hr
-    · injection hr with hr
-      subst hr
-      exact applyIndexed_skip_frame _ _ _ _ _ _ _ h
-    · cases hr
-  · cases hr
+    (hr : nestedProxy s m e = some r) (h : r.2 = false) : r.1.frame = s.frame :=
+  nestedProxyAt_skip_frame s m.clean m.start m.len e.new e.comment r hr h
 
 theorem heuristicApplyAt_skip_frame (s : Sess) (m : HMatch) (e : HEdit) (h : (heuristicApplyAt s m e).2 = false) :
     (heuristicApplyAt s m e).1.frame = s.frame := by
